@@ -11,7 +11,7 @@ from fractions import Fraction
 from ..core import strip_casts
 from .units import Poly, _add, _mul, show
 
-TRANSPARENT = {"int", "usize", "i32", "u32", "i64", "bool", "abs_noop"}
+TRANSPARENT = {"int", "usize", "i32", "u32", "i64", "bool", "math.floor", "floor"}
 CMP_S = {ast.Lt: "<", ast.LtE: "<=", ast.Gt: ">", ast.GtE: ">=", ast.Eq: "==", ast.NotEq: "!=", ast.Is: "is",
          ast.IsNot: "is not", ast.In: "in", ast.NotIn: "not in"}
 FLIP = {"<": ">", "<=": ">=", ">": "<", ">=": "<=", "==": "==", "!=": "!="}
@@ -43,8 +43,7 @@ class Canon:
         if isinstance(n, ast.Name) and n.id in self.consts:
             v = self.consts[n.id]
             return {(): Fraction(v)} if v != 0 else {}
-        if isinstance(n, ast.Call) and isinstance(n.func, ast.Name) and n.func.id in TRANSPARENT and len(n.args) == 1 \
-                and not n.keywords:
+        if isinstance(n, ast.Call) and ast.unparse(n.func) in TRANSPARENT and len(n.args) == 1 and not n.keywords:
             return self.poly(n.args[0])
         return {(self._s(n),): Fraction(1)}
 
